@@ -92,6 +92,7 @@ func (m *machine) intrinsic(name string, fn *ssa.Function, args []value, pos tok
 		if !hasContent && m.enumerate(0, 1) == 0 {
 			return tup{(*value)(nil), m.mkError("open: no such file or directory")}, true
 		}
+		m.st.fnSeen["model:os.Open file-handle accounting (a handle counts as open until Close)"] = true
 		p := new(value)
 		*p = agg{(*value)(nil)}
 		if m.openFiles == nil {
